@@ -1,8 +1,339 @@
 import CV.Driver.Util
-/-! Line protocol for component `quant` (stub; owned by the component's author) -/
-namespace CV.Driver.Quant
-open CV CV.Driver
+import CV.Model.Quant
+import CV.Model.QuantFloatReplica
+/-!
+Line protocol for component `quant` (float-derived entropy models).
 
-def handle (_segs : List (List String)) : String := "bad-op"
+```
+quant.fast    <ctor> <f32|f64> <B> <P> <norm|-> <tbl>            -> rejected | ok <s:c:p,…> mono=<b> valid=<b>
+quant.perfect <f32|f64> <B> <P> <tbl> <weights>                  -> rejected | ok valid | ok invalid
+quant.lazy    <f32|f64> <B> <P> <norm|-> <tbl> | op | op …       ops: enc s / dec q / table / sweep lo hi stride
+quant.new     <sym> <B> <P> <min> <max>                          -> ok <free> | panic:other
+quant.leaky   <sym> <B> <P> <min> <max> <hint> <dist…> | op | …  ops: full rec / enc s rec / dec q inv rec /
+                                                                      table rec / sweep lo hi stride
+```
+`<sym>` ∈ u8 i8 u16 i16 u32 i32 u64 i64; symbols are written as their two's-complement bit
+pattern.  `rec` = `x:c,x:c,…` recorded values of `Distribution::distribution` (f64 bit
+patterns, sorted by key), `inv` = `arg:kind:value` the recorded call of `Inverse::inverse`
+(`kind` `f` = an `f64` result, `u` = a `usize` result), `<hint>` = `rec` or a constant
+`kind:value`.  `<dist…>` (which distribution the harness instantiates) is ignored here.
+-/
+namespace CV.Driver.Quant
+open CV CV.Driver CV.Quant
+
+def sErrStr : SErr → String
+  | .fault f => faultStr f
+  | .missing => "missing"
+  | .fuel => "fuel"
+
+def showTriples (t : List (Nat × Nat × Nat)) : String :=
+  if t.isEmpty then "-" else
+  ",".intercalate (t.map fun (s, c, p) => toHex s ++ ":" ++ toHex c ++ ":" ++ toHex p)
+
+/-- C03-validity of a symbol table at precision `P`: tiling of `[0, 2^P)` by non-empty
+    intervals in order, at least two symbols (so none has probability one) -/
+def validTable (P : Nat) (t : List (Nat × Nat × Nat)) : Bool :=
+  let rec go (expect : Nat) : List (Nat × Nat × Nat) → Bool
+    | [] => expect == 2 ^ P
+    | (_, c, p) :: rest => c == expect && decide (0 < p) && decide (p < 2 ^ P) && go (c + p) rest
+  decide (t.length ≥ 2) && go 0 t
+
+def parseOptHex (s : String) : Option (Option Nat) :=
+  if s == "-" then some none else (parseHex s).map some
+
+/-! ### fast / lazy / perfect -/
+
+def fastLine {F : Type} (o : FOps F) (B P : Nat) (norm : Option Nat) (tbl : List Nat) : String :=
+  match fastSetup o B P (tbl.map o.ofBits) (norm.map o.ofBits) with
+  | none => "rejected"
+  | some c =>
+    match fastCdf B P c.n c.free (c.hE o B) with
+    | .error f => faultStr f
+    | .ok cdf =>
+      match tableOfCdf B 0 cdf with
+      | .error f => faultStr f
+      | .ok t =>
+        "ok " ++ showTriples t ++ " mono=" ++ (if c.monoCert o B then "1" else "0") ++
+          " valid=" ++ (if validTable P t then "1" else "0")
+
+def perfectLine {F : Type} (o : FOps F) (toF64 : F → Float) (B P : Nat) (tbl w : List Nat) : String :=
+  match perfectPre o toF64 B P (tbl.map o.ofBits) with
+  | .rejected => "rejected"
+  | .fault f => faultStr f
+  | .proceeds => if perfectContract P tbl.length w then "ok valid" else "ok invalid"
+
+structure LazySt (F : Type) where
+  c : FastCtx F
+  B : Nat
+  P : Nat
+
+def lazyEncStr {F : Type} (o : FOps F) (st : LazySt F) (s : Nat) : String × Bool :=
+  match lazyEnc st.B st.P st.c.n st.c.free (st.c.hL o st.B) s with
+  | .error f => (faultStr f, true)
+  | .ok none => ("none", false)
+  | .ok (some (c, p)) => (toHex c ++ " " ++ toHex p, false)
+
+/-- decoder query plus the TB-F2 certificate: the symbol before the first one examined after
+    the skip phase must not own the quantile -/
+def lazyDecRaw {F : Type} (o : FOps F) (st : LazySt F) (q : Nat) : M (Nat × Nat × Nat) × Bool :=
+  let k0 := st.c.k0 o st.B q
+  let r := lazyDec st.B st.P st.c.n st.c.free (st.c.hE o st.B) k0 q
+  let left := min (st.c.hE o st.B (k0 - 1)) st.c.free + (k0 - 1)
+  (r, decide (k0 = 1 ∨ left ≤ q) && decide (1 ≤ k0 ∧ k0 ≤ st.c.n))
+
+def lazyTable {F : Type} (o : FOps F) (st : LazySt F) : (fuel s : Nat) → List (Nat × Nat × Nat) → String
+  | 0, _, acc => showTriples acc.reverse
+  | fuel + 1, s, acc =>
+    match lazyEnc st.B st.P st.c.n st.c.free (st.c.hL o st.B) s with
+    | .error f => faultStr f
+    | .ok none => "none"
+    | .ok (some (c, p)) => lazyTable o st fuel (s + 1) ((s, c, p) :: acc)
+
+def lazySweep {F : Type} (o : FOps F) (st : LazySt F) (hi stride : Nat) :
+    (fuel q : Nat) → (cnt : Nat) → (dg : UInt64) → String
+  | 0, _, cnt, dg => toHex cnt ++ " " ++ toHex dg.toNat
+  | fuel + 1, q, cnt, dg =>
+    if q > hi then toHex cnt ++ " " ++ toHex dg.toNat
+    else
+      match lazyDecRaw o st q with
+      | (.error f, _) => faultStr f
+      | (.ok (s, c, p), cert) =>
+        if !cert then "cert-fail:tbf2"
+        else lazySweep o st hi stride fuel (q + stride) (cnt + 1)
+              (digestStep (digestStep (digestStep dg s) c) p)
+
+def lazyOp {F : Type} (o : FOps F) (st : LazySt F) (seg : List String) : Option (String × Bool) :=
+  match seg with
+  | ["enc", s] => do
+      let s ← parseHex s
+      some (lazyEncStr o st s)
+  | ["dec", q] => do
+      let q ← parseHex q
+      if q ≥ 2 ^ st.B then none else
+      match lazyDecRaw o st q with
+      | (.error f, _) => some (faultStr f, true)
+      | (.ok (s, c, p), cert) =>
+        some (toHex s ++ " " ++ toHex c ++ " " ++ toHex p ++ " tbf2=" ++ (if cert then "1" else "0"), false)
+  | ["table"] => some (lazyTable o st st.c.n 0 [], false)
+  | ["sweep", lo, hi, stride] => do
+      let lo ← parseHex lo
+      let hi ← parseHex hi
+      let stride ← parseHex stride
+      if stride = 0 ∨ hi ≥ 2 ^ st.B then none else
+      some (lazySweep o st hi stride ((hi - lo) / stride + 2) lo 0 digestInit, false)
+  | _ => none
+
+def runOps {σ : Type} (op : σ → List String → Option (σ × String × Bool)) :
+    σ → List (List String) → List String → List String
+  | _, [], acc => acc.reverse
+  | st, seg :: rest, acc =>
+    match op st seg with
+    | none => ("bad-op" :: acc).reverse
+    | some (st', out, dead) =>
+      if dead then (out :: acc).reverse else runOps op st' rest (out :: acc)
+
+def lazyLine {F : Type} (o : FOps F) (B P : Nat) (norm : Option Nat) (tbl : List Nat)
+    (ops : List (List String)) : String :=
+  match fastSetup o B P (tbl.map o.ofBits) (norm.map o.ofBits) with
+  | none => "rejected"
+  | some c =>
+    let st : LazySt F := { c := c, B := B, P := P }
+    let init := "ok mono=" ++ (if c.monoCert o B then "1" else "0")
+    " | ".intercalate
+      (runOps (fun st seg => (lazyOp o st seg).map fun (out, dead) => (st, out, dead)) st ops [init])
+
+/-! ### leaky quantizer -/
+
+def parseSymTy (s : String) : Option SymTy :=
+  match s with
+  | "u8" => some ⟨8, false⟩ | "i8" => some ⟨8, true⟩
+  | "u16" => some ⟨16, false⟩ | "i16" => some ⟨16, true⟩
+  | "u32" => some ⟨32, false⟩ | "i32" => some ⟨32, true⟩
+  | "u64" => some ⟨64, false⟩ | "i64" => some ⟨64, true⟩
+  | _ => none
+
+def parseSym (t : SymTy) (s : String) : Option Int := do
+  let v ← parseHex s
+  if v ≥ 2 ^ t.bits then none
+  else if t.signed ∧ v ≥ 2 ^ (t.bits - 1) then some ((v : Int) - (2 ^ t.bits : Nat))
+  else some (v : Int)
+
+def symHex (t : SymTy) (x : Int) : String := toHex (x % (2 ^ t.bits : Nat)).toNat
+
+def parsePair (s : String) : Option (UInt64 × UInt64) :=
+  match s.splitOn ":" with
+  | [a, b] => do
+      let a ← parseHex a
+      let b ← parseHex b
+      some (UInt64.ofNat a, UInt64.ofNat b)
+  | _ => none
+
+def parseRec (s : String) : Option (Array (UInt64 × UInt64)) :=
+  if s == "-" then some #[] else
+  (s.splitOn ",").foldl (fun acc t => match acc, parsePair t with
+    | some a, some p => some (a.push p)
+    | _, _ => none) (some #[])
+
+inductive HintVal where
+  | f (bits : Nat)
+  | u (v : Nat)
+
+def parseHintVal (k v : String) : Option HintVal := do
+  let v ← parseHex v
+  if k == "f" then some (.f v) else if k == "u" then some (.u v) else none
+
+def HintVal.toSym (t : SymTy) : HintVal → Int
+  | .f bits => f64ToSym t (Float.ofBits (UInt64.ofNat bits))
+  | .u v => t.wrap (v : Int)
+
+structure LeakySt where
+  m : LQ
+  full : Array (UInt64 × UInt64)
+  constHint : Option HintVal
+
+def LeakySt.ext (st : LeakySt) (rec : Array (UInt64 × UInt64)) (half : Float) : Ext := fun s =>
+  match leakyExt st.m.B st.m.free rec half s with
+  | some v => some v
+  | none => leakyExt st.m.B st.m.free st.full half s
+
+def showSymTriples (t : SymTy) (l : List (Int × Nat × Nat)) : String :=
+  if l.isEmpty then "-" else
+  ",".intercalate (l.map fun (s, c, p) => symHex t s ++ ":" ++ toHex c ++ ":" ++ toHex p)
+
+/-- certificate on a complete table: `Mono g ∧ g ≤ free` over the whole support -/
+def leakyCert (st : LeakySt) : Option (Bool × Bool) :=
+  let gl := st.ext #[] (-0.5)
+  let n := (st.m.max - st.m.min).toNat
+  let rec go (fuel : Nat) (s : Int) (prev : Nat) (mono bound : Bool) : Option (Bool × Bool) :=
+    match fuel with
+    | 0 => some (mono, bound)
+    | fuel + 1 =>
+      match gl s with
+      | none => none
+      | some v => go fuel (s + 1) v (mono && decide (prev ≤ v)) (bound && decide (v ≤ st.m.free))
+  go n (st.m.min + 1) 0 true true
+
+def leakyDecOne (st : LeakySt) (rec : Array (UInt64 × UInt64)) (hint : Int) (q : Nat) :
+    SM (Int × Nat × Nat) :=
+  st.m.dec (st.ext rec (-0.5)) (st.ext rec 0.5) (searchFuel st.m.t) hint q
+
+def leakySweep (st : LeakySt) (hint : Int) (hi stride : Nat) :
+    (fuel q cnt : Nat) → (dg : UInt64) → String
+  | 0, _, cnt, dg => toHex cnt ++ " " ++ toHex dg.toNat
+  | fuel + 1, q, cnt, dg =>
+    if q > hi then toHex cnt ++ " " ++ toHex dg.toNat
+    else
+      match leakyDecOne st #[] hint q with
+      | .error e => sErrStr e
+      | .ok (s, c, p) =>
+        leakySweep st hint hi stride fuel (q + stride) (cnt + 1)
+          (digestStep (digestStep (digestStep dg (s % (2 ^ st.m.t.bits : Nat)).toNat) c) p)
+
+def leakyOp (st : LeakySt) (seg : List String) : Option (LeakySt × String × Bool) :=
+  let t := st.m.t
+  match seg with
+  | ["full", rec] => do
+      let rec ← parseRec rec
+      let st := { st with full := rec }
+      match leakyCert st with
+      | none => some (st, "missing", true)
+      | some (mono, bound) =>
+        some (st, "ok mono=" ++ (if mono then "1" else "0") ++ " bound=" ++ (if bound then "1" else "0"), false)
+  | ["enc", s, rec] => do
+      let s ← parseSym t s
+      let rec ← parseRec rec
+      match st.m.enc (st.ext rec (-0.5)) (st.ext rec 0.5) s with
+      | .error e => some (st, sErrStr e, true)
+      | .ok none => some (st, "none", false)
+      | .ok (some (c, p)) => some (st, toHex c ++ " " ++ toHex p, false)
+  | ["dec", q, inv, rec] => do
+      let q ← parseHex q
+      let rec ← parseRec rec
+      if q ≥ 2 ^ st.m.B then none else
+      let hint : Option (Option Int) :=
+        match st.constHint with
+        | some h => if inv == "-" then some (some (h.toSym t)) else none
+        | none =>
+          match inv.splitOn ":" with
+          | [a, k, v] => do
+              let a ← parseHex a
+              let hv ← parseHintVal k v
+              if (inverseArg st.m.B st.m.P q).toBits.toNat == a then some (some (hv.toSym t))
+              else some none
+          | _ => none
+      match ← hint with
+      | none => some (st, "missing", true)
+      | some h =>
+        match leakyDecOne st rec h q with
+        | .error e => some (st, sErrStr e, true)
+        | .ok (s, c, p) => some (st, symHex t s ++ " " ++ toHex c ++ " " ++ toHex p, false)
+  | ["table", rec] => do
+      let rec ← parseRec rec
+      match st.m.table (st.ext rec (-0.5)) ((st.m.max - st.m.min).toNat + 1) st.m.min 0 with
+      | .error e => some (st, sErrStr e, true)
+      | .ok l => some (st, showSymTriples t l, false)
+  | ["sweep", lo, hi, stride] => do
+      let lo ← parseHex lo
+      let hi ← parseHex hi
+      let stride ← parseHex stride
+      let h ← st.constHint
+      if stride = 0 ∨ hi ≥ 2 ^ st.m.B then none else
+      some (st, leakySweep st (h.toSym t) hi stride ((hi - lo) / stride + 2) lo 0 digestInit, false)
+  | _ => none
+
+def newLine (sym b p mn mx : String) : Option (M LQ) := do
+  let t ← parseSymTy sym
+  let B ← parseHex b
+  let P ← parseHex p
+  let mn ← parseSym t mn
+  let mx ← parseSym t mx
+  if P = 0 ∨ P > B then none else
+  some (LQ.new t B P mn mx)
+
+def parseFloatTy (s : String) : Option Bool :=
+  if s == "f32" then some true else if s == "f64" then some false else none
+
+def handle (segs : List (List String)) : String :=
+  match segs with
+  | [["quant.fast", _ctor, f, b, p, norm, tbl]] =>
+    match parseFloatTy f, parseHex b, parseHex p, parseOptHex norm, parseList tbl with
+    | some is32, some B, some P, some norm, some tbl =>
+      if P = 0 ∨ P > B then "bad-op"
+      else if is32 then fastLine f32Ops B P norm tbl else fastLine f64Ops B P norm tbl
+    | _, _, _, _, _ => "bad-op"
+  | [["quant.perfect", f, b, p, tbl, w]] =>
+    match parseFloatTy f, parseHex b, parseHex p, parseList tbl, parseList w with
+    | some is32, some B, some P, some tbl, some w =>
+      if P = 0 ∨ P > B then "bad-op"
+      else if is32 then perfectLine f32Ops Float32.toFloat B P tbl w
+      else perfectLine f64Ops id B P tbl w
+    | _, _, _, _, _ => "bad-op"
+  | ["quant.lazy", f, b, p, norm, tbl] :: ops =>
+    match parseFloatTy f, parseHex b, parseHex p, parseOptHex norm, parseList tbl with
+    | some is32, some B, some P, some norm, some tbl =>
+      if P = 0 ∨ P > B then "bad-op"
+      else if is32 then lazyLine f32Ops B P norm tbl ops else lazyLine f64Ops B P norm tbl ops
+    | _, _, _, _, _ => "bad-op"
+  | [["quant.new", sym, b, p, mn, mx]] =>
+    match newLine sym b p mn mx with
+    | none => "bad-op"
+    | some (.error f) => faultStr f
+    | some (.ok m) => "ok " ++ toHex m.free
+  | ("quant.leaky" :: sym :: b :: p :: mn :: mx :: hint :: _dist) :: ops =>
+    match newLine sym b p mn mx with
+    | none => "bad-op"
+    | some (.error f) => faultStr f
+    | some (.ok m) =>
+      let ch : Option (Option HintVal) :=
+        if hint == "rec" then some none
+        else match hint.splitOn ":" with
+          | [k, v] => (parseHintVal k v).map some
+          | _ => none
+      match ch with
+      | none => "bad-op"
+      | some ch =>
+        let st : LeakySt := { m := m, full := #[], constHint := ch }
+        " | ".intercalate (runOps leakyOp st ops ["ok " ++ toHex m.free])
+  | _ => "bad-op"
 
 end CV.Driver.Quant
